@@ -67,8 +67,9 @@ PROPS = {
     ),
     "C01": dict(
         engine="TestC01",
-        lean_modules=["S2S.Props.C01"],
-        required_theorems=["C01_never_acks_unconfirmed", "C01_refuted_before_fix"],
+        lean_modules=["S2S.Props.C01", "S2S.Props.C03S"],
+        required_theorems=["C01_never_acks_unconfirmed", "C01_refuted_before_fix", "C03S_acks_history_grows", "C03S_late_ack_still_safe",
+                           "C03S_visible_prefix_monotone_bounded", "C03S_late_ack_safe_modulo_known"],
         rule=ROUTING_RULE + " Focus C01: 2-4 targets, prompt / lagging / silent targets (acks at the last high, at earlier highs, at ids inside a batch, "
              "or never), gated (slow) targets; monitor: every upstream ack a vs every received task id < a confirmed by its owner target's own acks.",
         assumptions=ROUTING_ASSUMPTIONS,
@@ -89,14 +90,15 @@ PROPS = {
     ),
     "C03": dict(
         engine="TestC03",
-        lean_modules=["S2S.Props.C03"],
-        required_theorems=["C03_acks_monotone_bounded", "C03_eventually_complete"],
+        lean_modules=["S2S.Props.C03", "S2S.Props.C03V"],
+        required_theorems=["C03_acks_monotone_bounded", "C03_eventually_complete", "C03V_visible_prefix_monotone_bounded"],
         rule=ROUTING_RULE + " Focus C03: slow (gated) targets flooded with >100 watermarks so that the 100-slot queue fills and broadcasts are dropped, "
              "targets that never get a task, late targets; every fault-free trace ends with a drain phase (gates opened, all targets opened, two fair "
              "rounds: final watermark re-sent, every target acks everything it received) after which the last upstream ack must equal the final high watermark. "
-             "A quarter as many additional traces (C03 and C01) have SLOW SOURCES (op `sgate`: the source cluster stops reading, so the receiver's Send of an "
-             "acknowledgement blocks half-way through the step the model treats as atomic); these traces are outside the model's op language and are "
-             "checked by the monitors only (monotone, bounded, C01 safety, drain).",
+             "A quarter as many additional traces (C03 and C01) have SLOW SOURCES (op `sgate`: the source cluster stops reading anything new, so the "
+             "receiver's Send of an acknowledgement blocks half-way through the step the model treats as atomic; a repeated watermark = keep-alive still "
+             "passes). The model driver runs them with the blocked receiver's `rack` disabled and the held acknowledgement hidden until the gate opens "
+             "(still a run of `step`; what the source sees is a prefix of `acksSent`, which is what the C03S theorems judge).",
         assumptions=ROUTING_ASSUMPTIONS + ["liveness is the 'two fair rounds' reading: the source re-sends its final watermark and every target acknowledges what it received, twice; real-time tickers are not modelled"],
         timeout={"quick": 1200, "thorough": 7200},
     ),
